@@ -290,6 +290,18 @@ def check_cfg(fx, rep, crate, cfg):
     rep.check(ok5, 'R10.5', '%s|item-futures-are-next-of-entry-stream|%s' % (fk, cfg), run.where(),
               'the futures polled for stream items are StreamExt::next on each entry\'s own `stream` field',
               'the futures polled for stream items are not StreamExt::next on the entries\' own streams')
+    # ---- R10.9 priority of the biased select: a stream whose next item is always ready (a backlog, a non-ending stream - both in the
+    # property's quantifier) must not shut out the other event sources; `select_biased!` polls its arms in textual order and takes the
+    # first ready one, so the stream arm has to come after the accept arm and the call arm (`select!` shuffles: no order to check)
+    shuffles = any(t['callee'].get('name') == 'shuffle' for cb in [run] + list(C.nested(crate, run)) for _, t in cb.iter_terms('call'))
+    ka, _arm_a = S.arm_of_kind('accept')
+    order = {'accept': ka, 'calls': kc, 'streams': ks}
+    ok9 = shuffles or (ks is not None and kc is not None and ks > kc and (ka is None or ks > ka))
+    rep.check(ok9, 'R10.9', '%s|stream-arm-has-lowest-priority|%s' % (fk, cfg), run.where(),
+              'the select polls the stream arm after the accept and call arms (arm order %s%s)' % (order, ', shuffled' if shuffles else ''),
+              'the biased select of the server loop polls the reply-stream arm before the %s arm (arm order %s): a stream that has an item ready '
+              'at every poll wins every iteration, other clients\' calls are not read and new connections not accepted while it is open'
+              % ('call' if (kc is not None and ks is not None and ks < kc) else 'accept', order), order)
 
 
 def import_rules(fx, rep, tier, cfg):
@@ -317,6 +329,7 @@ def check(fx, rep, tier):
     rep.rule('R10.3', 'frames already buffered are served before the transport is read again (R01.2a)')
     rep.rule('R10.4', 'the receive path is cancel-safe (R07.1-R07.3): the select loop drops pending receive futures on every stream item')
     rep.rule('R10.5', 'the futures polled for items are next() on each entry\'s own stream')
+    rep.rule('R10.9', 'other clients are served while a stream is open: in the biased select the reply-stream arm comes after the accept arm and the call arm')
     for cfg in ['full'] + (['ws'] if tier == 'thorough' else []):
         check_cfg(fx, rep, fx.crate('zlink_core', cfg), cfg)
         import_rules(fx, rep, tier, cfg)
